@@ -90,8 +90,6 @@ int main(int argc, char** argv) {
         const Cat& c = ref[ci];
         for (int b = 0; b < 256; ++b, ++idx) {
             if (int(idx % nshards) != shard) continue;
-            printf("CASE category=%s byte=0x%02x\n", c.name, b);
-            fflush(stdout);
             int pfd[2], efd[2];
             if (pipe(pfd) || pipe(efd)) { res.harness_error = "pipe failed"; break; }
             pid_t pid = fork();
